@@ -7,15 +7,29 @@
 (***************************************************************************)
 EXTENDS CompileScopes
 
-VARIABLE pol
-vars == <<pol>>
+CONSTANT NShards
+VARIABLES pol, shard
+vars == <<pol, shard>>
 
-Init == IF Explicit(Scope) THEN pol \in ExplicitPolicies(Scope)
-        ELSE pol \in {Mk(d, x, <<g>>) : d \in Defaults(Scope), x \in Targets(Scope), g \in GroupSet(Scope)}
-AddGroup == /\ ~Explicit(Scope)
+\* The first step picks a policy of the scope (first group for product
+\* scopes).  The policies are dealt to NShards initial states so that all
+\* workers take part, and so that every compilation is evaluated by a worker
+\* thread (whose stack honours -Xss; real-scale policies recurse deeply).
+NoPol == Mk("none", FALSE, <<>>)
+Firsts(dummy) ==
+  IF Explicit(Scope) THEN SetToSeq(ExplicitPolicies(Scope))
+  ELSE SetToSeq({Mk(d, x, <<g>>) : d \in Defaults(Scope), x \in Targets(Scope), g \in GroupSet(Scope)})
+Init == pol = NoPol /\ shard \in 0..(NShards - 1)
+Pick == /\ pol = NoPol
+        /\ LET all == Firsts(0) IN
+           \E i \in 1..Len(all) : i % NShards = shard /\ pol' = all[i]
+        /\ UNCHANGED shard
+AddGroup == /\ pol # NoPol
+            /\ ~Explicit(Scope)
             /\ Len(pol.groups) < MaxGroups(Scope)
             /\ \E g \in GroupSet(Scope) : pol' = [pol EXCEPT !.groups = Append(@, g)]
-Next == AddGroup
+            /\ UNCHANGED shard
+Next == Pick \/ AddGroup
 Spec == Init /\ [][Next]_vars
 
 Events == EventSeq(Scope)
@@ -27,12 +41,12 @@ OKFor(le) ==
     \A i \in 1..Len(Events) : RunEv(c.insts, Events[i], le) = Decide(pol, Events[i])
 
 \* C01 / C02 / C03 (and C04's decisions): the program decides like the reference
-DecisionOK == OKFor(TRUE) /\ OKFor(FALSE)
+DecisionOK == pol # NoPol => (OKFor(TRUE) /\ OKFor(FALSE))
 
 \* C04: foreign and x32 events execute nothing but the prologue and one return
 PathOK ==
   LET c == Compile(pol, TRUE) IN
-  c.err = "" =>
+  (pol # NoPol /\ c.err = "") =>
     \A i \in 1..Len(Events) :
       ~Native(Events[i]) =>
         LET path == Path(c.insts, Data(Events[i], TRUE))
@@ -45,9 +59,9 @@ PathOK ==
 ValidOK ==
   \A le \in BOOLEAN :
     LET c == Compile(pol, le) IN
-    c.err = "" => /\ KernelAccepts(c.insts)
+    (pol # NoPol /\ c.err = "") => /\ KernelAccepts(c.insts)
                   /\ RetSet(c.insts) \subseteq AllowedRets(pol)
 
 \* C07: rejected exactly when defective (entries carry >= 1 condition in all scopes)
-RejectOK == (Compile(pol, TRUE).err # "") <=> HasDefect(pol)
+RejectOK == pol # NoPol => ((Compile(pol, TRUE).err # "") <=> HasDefect(pol))
 =============================================================================
